@@ -343,5 +343,8 @@ func runC20Rest(c *Ctx) {
 		}
 		c.Check("C20-R4", "resend-started-after-rescan", rs.Pos(), started, "resendUnminedTxs is no longer started from the rescan-finished handler")
 	}
+	checkRescanEventsForwarded(c, "C20-R4")
 	checkConflictRemoval(c, "C20-R5")
+	// removing one rejected spender of a coin keeps all its other recorded spenders
+	checkNoAccumulatorReset(c, "C20-R5", "wtxmgr")
 }
